@@ -10,7 +10,11 @@ QUERIES = [dict(name='simple_processor_lock_across_export', harness='c03_simple'
 HARNESSES['c03_rg'] = dict(src='c03_simple_rg.cc', defines=['OTEL_INTERNAL_LOG_LEVEL=0'], models=['libc.c', 'cxxrt.c', 'stdstring.c', 'single_threaded.c', 'rg_queue.c'], model_defines=['VERIF_CUSTOM_DELETE'], no_default_atomics=True, native_mode='generated_c', roots=['rg_consumer_take'])
 for e, what in (('h_simple_span_rg', 'SimpleSpanProcessor::OnEnd'), ('h_simple_log_rg', 'SimpleLogRecordProcessor::OnEmit')):
     QUERIES.append(dict(name=e[2:], harness='c03_rg', entry=e, unwind=5, timeout=600, shape=what + ' from an arbitrary lock state (free / held by another thread) with arbitrary interference on the lock flag before every atomic operation (bounded fairness: the other holder releases within two interferences)'))
-BOUNDS = ['SimpleSpanProcessor sequential call scripts; SimpleSpanProcessor::OnEnd and SimpleLogRecordProcessor::OnEmit thread-modularly (one call, arbitrary lock pre-state and interference); mutual exclusion of the lock itself is C11 (spinlock query)']
-OUTSIDE = ['batch size bounds of BatchSpanProcessor/BatchLogRecordProcessor::Export (the clause that an earlier ForceFlush must not lift the bound): the object-level encoding of the batch processors ran out of memory (12-24 GB) in CBMC even for queue size 1 - measured, DESIGN.md 6 - so this clause is NOT decided; the defect seen by reading (Export takes the whole queue once force_flush_pending_sequence != 0) is recorded in DESIGN.md as unconfirmed by the solver',
-           'periodic metric reader']
-ASSUMPTIONS = ['single executing thread inside the query; the lock flag is read through the sequential atomic hooks']
+from batch_common import *
+for logs in (False, True):
+    for (q, b, k, t, i, tier) in ((4, 2, 4, 1, 0, 'quick'), (4, 2, 4, 2, 0, 'quick'), (4, 2, 3, 1, 1, 'thorough'), (4, 3, 4, 1, 0, 'thorough'), (4, 1, 3, 2, 0, 'thorough'), (2, 1, 2, 1, 0, 'thorough')):
+        add_query(HARNESSES, QUERIES, logs, q, b, k, t, i, 'h_export_cycle', 'batch_bounds_cycle', tier)
+    add_query(HARNESSES, QUERIES, logs, 4, 2, 4, 0, 0, 'h_shutdown', 'batch_bounds_shutdown', 'quick')
+BOUNDS = ['batch processors (span and log): queue 2..4, batch 1..3, ticket history classes incl. an earlier ForceFlush, shutdown drain; concrete shape per query', 'SimpleSpanProcessor sequential call scripts; SimpleSpanProcessor::OnEnd and SimpleLogRecordProcessor::OnEmit thread-modularly (one call, arbitrary lock pre-state and interference); mutual exclusion of the lock itself is C11 (spinlock query)']
+OUTSIDE = ['real overlap of two Export calls on a batch processor (there is one worker; Export is only reachable from Export()/DrainQueue(), which the harness runs one at a time; the mock exporter flags re-entry)', 'periodic metric reader']
+ASSUMPTIONS = ['single executing thread inside the query; the lock flag is read through the sequential atomic hooks'] + BATCH_ASSUMPTIONS
